@@ -23,7 +23,7 @@ ASSUMPTIONS = ['CachedMethods compatibility shim', 'numbering independence is ju
                'unmodified corpus (recorded gap: hetero-arene tautomer fix picks among equivalent tautomers by match order)',
                'conservation of charge/H is demanded only for valence-valid input, as the property states']
 CONFIG = {
-    'quick': {'shards': 16, 'budget_s': 120, 'n_corpus': 320, 'k_renum': 1, 'n_taut': 100,
+    'quick': {'shards': 16, 'budget_s': 400, 'n_corpus': 320, 'k_renum': 1, 'n_taut': 100,
               'floors': {'evaluations': 5000, 'distinct_nontrivial': 300, 'ops.executed': 5000, 'ops.changed-something': 300,
                          'pairs.documented': 110, 'rules.distinct-fired': 60, 'renumbered.compared': 1000, 'tautomers.generated': 60,
                          'pairs.geminal': 100, 'warm-cache.compared': 1500, 'inputs.quaternized': 60}},
